@@ -1,4 +1,4 @@
-\* protocol as implemented, 2 connections x 1 caller, best switches (ticker, one liveness flip)
+\* protocol before the repairs (all Fix* = FALSE; kept as a leads generator: only the safety part is checked), 2 connections x 1 caller, best switches (ticker, one liveness flip)
 CONSTANTS
   NC = 2
   Waiters = {w1}
